@@ -10,7 +10,7 @@ use ldpc_toolbox::decoder::{Message, SentMessage};
 def build(tier, seed):
     items = []
     degs_i8 = [2, 3, 4, 5] if tier == "quick" else [2, 3, 4, 5, 6, 7, 8]
-    degs_f = [2, 3, 4] if tier == "quick" else [2, 3, 4, 5, 6]
+    degs_f = [2, 3, 4] if tier == "quick" else [2, 3, 4, 5]
     rep = ("Minstarapproxi8", "Aminstari8", "Minstarapproxi8JonesPartialHardLimitDeg1Clip", "Aminstari8PartialHardLimit")
     for t in arith.i8_types():
         n = t["name"]
